@@ -107,6 +107,7 @@ def check_roundtrip(lx: LayoutExtractor, rep, prefix='C01'):
               'child\'s header' % n14, '; '.join(p14))
     reachable = set()
     type_of = {}
+    skipped_layouts = []
     for c in classes:
         # a codec class that was added after the rules were confirmed: its layout is read like the others' when the extractor
         # understands it; when not (element lists, nested length fields, seeks) the class is outside the model -- said once, as
@@ -128,6 +129,7 @@ def check_roundtrip(lx: LayoutExtractor, rep, prefix='C01'):
             if not understood:
                 if tconst is not None:
                     type_of[c.name] = tconst
+                skipped_layouts.append(c.name)
                 rep.undecided(R('O1'), '%s: %s was added after the codec rules were confirmed and its encoder / decoder are not in a form '
                               'the layout extractor reads: its round trip is not decided' % (c.loc(), c.name))
                 continue
@@ -136,6 +138,7 @@ def check_roundtrip(lx: LayoutExtractor, rep, prefix='C01'):
         except AnalysisError as exc_:
             # one class the extractor cannot read does not stop the others from being judged
             rep.undecided(R('O1'), str(exc_))
+            skipped_layouts.append(c.name)
             for an_ in ('item_type', 'pdu_type'):
                 hit_ = c.find_attr(an_)
                 if hit_ is not None:
@@ -361,6 +364,8 @@ def check_roundtrip(lx: LayoutExtractor, rep, prefix='C01'):
     except Exception:
         pass
     for c in classes:
+        if c.name not in reachable and skipped_layouts:
+            continue      # (a container whose decoder was not read may be the one that dispatches to it: said above, as undecided)
         rep.check(c.name in reachable, R('O6'), '%s:%s:reachable' % (c.module.name, c.name), c.loc(),
                   'decoder is reachable from a dispatch / as a fixed child',
                   'no decoder dispatches to %s: it can be encoded but never decoded' % c.name)
